@@ -451,7 +451,7 @@ Qed.
 Lemma cntl_after_remove_cancel : forall t r, NoDup (rr_cancel r) ->
   cntl (is_cancel t) (after_remove r) = if mem t (rr_cancel r) then 1 else 0.
 Proof. intros. unfold after_remove. rewrite cntl_app, cntl_cancel_map by auto. rewrite cntl_map_zero by auto. lia. Qed.
-Lemma cntl_after_remove_zero : forall p r, (forall s, p (IClose s) = false) -> (forall t, p (ICancel t) = false) ->
+Lemma cntl_after_remove_zero : forall p r, (forall l, p (ICloseLoop l) = false) -> (forall t, p (ICancel t) = false) ->
   cntl p (after_remove r) = 0.
 Proof. intros. unfold after_remove. rewrite cntl_app, !cntl_map_zero by auto. auto. Qed.
 
@@ -517,7 +517,7 @@ Lemma CBp_removal : forall st stp st0 r d i thr',
 Proof.
   intros st stp st0 r d i thr' HC HM Er Et En [a [Ea Hpa]] Hd HQ Hpi Hps Hold Hcan Hg Hdone.
   destruct (rm_frame _ _ _ HM) as (_ & Hn & _).
-  assert (Hz : forall p, (forall s, p (IClose s) = false) -> (forall t, p (ICancel t) = false) -> cnt p thr' + (if p i then 1 else 0) = cnt p (threads st)).
+  assert (Hz : forall p, (forall l, p (ICloseLoop l) = false) -> (forall t, p (ICancel t) = false) -> cnt p thr' + (if p i then 1 else 0) = cnt p (threads st)).
   { intros p H1 H2. rewrite (HQ p), cntl_after_remove_zero by auto. lia. }
   assert (Hti : forall t, t_init (trigs st0 t) = t_init (trigs st t) /\ t_started (trigs st0 t) = t_started (trigs st t) /\
                          t_cancelled (trigs st0 t) = t_cancelled (trigs st t)).
@@ -675,9 +675,9 @@ Section C13Thr.
           intro Hx; apply in_app_iff in Hx; destruct Hx as [Hx|[Hx|[]]]; [tauto|inversion Hx; lia]).
     - (* start-up failure: GEnd t is logged, doneTriggerFromUpdater is pending *)
       intros t0 [Hd|Ht0].
-      + inversion Hd; subst t0. split; [auto|right]. hq HQ (is_doner t). rewrite Nat.eqb_refl in *. simpl in *. lia.
-      + hq HQ (is_doner t0). destruct (cb_end _ HC t0 Ht0) as [F1 [F|F]]; unfold registered in *; simpl; split; auto. right.
-        destruct (t =? t0); simpl in *; lia.
+      + inversion Hd; subst t0. split; [auto|right]. hq HQ (is_doner t); rewrite Nat.eqb_refl in *; simpl in *; lia.
+      + destruct (cb_end _ HC t0 Ht0) as [F1 [F|F]]; unfold registered in *; simpl; split; auto. right.
+        hq HQ (is_doner t0); destruct (t =? t0); simpl in *; lia.
     - (* doneTriggerFromUpdater of a trigger that is no longer the registered one: nothing happens *)
       rewrite Hfc in Ec. destruct (is_reg st t) eqn:Er; [discriminate|].
       assert (Hnr : ~ registered st t) by (unfold registered; intro Hx; apply (is_reg_true _ _ HR) in Hx; congruence).
